@@ -115,7 +115,7 @@ def moral_rules(rep, prog):
         i, j = ("sub", e, ("const", 0)), ("sub", e, ("const", 2))
         stores = S.select("store", qname=q)
         idxs = {st.idx for st in stores if is_const(st.value, 1) and st.aug is None}
-        base_ok = list(li["init"].values()) == [sk]
+        base_ok = list(li["init"].values()) in ([sk], [("method", sk, "copy", (), ())], [("ext", "numpy.copy", (sk,), ())], [("ext", "numpy.array", (sk,), ())])
         ok = li["iter"] == vs and idxs == {("tuple", (i, j)), ("tuple", (j, i))} and base_ok and len(stores) == 2
         why = "iter=%s stores=%s base=%s" % (fmt(li["iter"]), sorted(fmt(x) for x in idxs), [fmt(v) for v in li["init"].values()])
         rets = S.select("return", qname=q)
